@@ -916,12 +916,12 @@ func runLife(p *pki, cfg, seq string) (lifeObs, bool) {
 		checkServing := func(tag string) {
 			if s.plain != 0 {
 				if !plainServed(s.plain, "") {
-					o.Problems = append(o.Problems, tag+": returned nil but the plain port does not serve")
+					o.Problems = append(o.Problems, tag+": the server was started without error and not stopped, but the plain port does not serve")
 				}
 			}
 			if s.secure != 0 {
 				if _, ok := tlsServed(p, s.secure, &vc, ""); !ok {
-					o.Problems = append(o.Problems, tag+": returned nil but the TLS port does not serve")
+					o.Problems = append(o.Problems, tag+": the server was started without error and not stopped, but the TLS port does not serve")
 				}
 			}
 		}
